@@ -5,7 +5,7 @@ Require Import BFL.Ops BFL.C13_Model.
 Require Import Extraction ExtrOcamlBasic.
 
 (* observations of a word of operations on a freshly constructed filter *)
-Definition c13_run (k : kind) (have : bool) (ops : list op) : list obs := run_ops k ops (init have).
+Definition c13_run (k : kind) (have : bool) (ops : list op) : list obs := run_ops k ops (m_init have).
 
 (* The build pastes ocaml/float_ops.ml in front of every driver; that fragment
    mentions the extracted types nat, positive, z and sOps.  This unused
